@@ -7,7 +7,7 @@ from vlib import engine, gen, kal, oracle
 
 ID = "C10"
 RULE = ("Inputs of 3..300 sequences (quick <= 160): clade-structured families (balanced guide trees), chain-like divergence "
-        "(caterpillar trees), unrelated and degenerate sets, below and above the 100-sequence switch to k-means trees; all types, "
+        "(caterpillar trees), fragment families (full-length relatives, prefix / suffix / inner fragments of 40..2300 residues - thorough ..4200 - and relatives with an insertion on or next to a fragment edge), unrelated and degenerate sets, below and above the 100-sequence switch to k-means trees; all types, "
         "penalties, thread counts. The guarded MERGE_END hook snapshots, for every internal node actually used, the member "
         "sequences (by rank) and a copy of each member's gap vector at the moment the node completes. Oracle (history "
         "invariant): for every node, the final rows of its members with their common all-gap columns removed equal the snapshot "
@@ -27,10 +27,36 @@ def chain_family(seed, alphabet, n, length, sub, indel):
     return out
 
 
+def frag_family(seed, alphabet, L, nfull, nfrag, nins):
+    """full-length relatives of one ancestor, fragments of it (prefixes, suffixes, inner pieces) and relatives that carry an
+    insertion on or next to a column at which a fragment ends or begins: later merges insert gap columns exactly at the
+    edge of a member's trailing / leading gap run"""
+    rnd = random.Random(seed)
+    anc = "".join(rnd.choice(alphabet) for _ in range(L))
+    def sub(s, rate):
+        return "".join(rnd.choice(alphabet) if rnd.random() < rate else c for c in s)
+    out = [sub(anc, 0.03) for _ in range(nfull)]
+    edges = []
+    for _ in range(nfrag):
+        a = rnd.choice([0, 0, rnd.randint(1, max(1, L // 2))])
+        b = rnd.choice([L, rnd.randint(max(a + 2, L // 2), L - 1)]) if a == 0 else rnd.choice([L, L, rnd.randint(a + 2, L)])
+        if a == 0 and b == L:
+            b = rnd.randint(L // 2, L - 1)
+        out.append(sub(anc[a:b], 0.02) or anc[:2])
+        edges += [x for x in (a, b) if 0 < x < L]
+    for _ in range(nins):
+        e = (rnd.choice(edges) if edges else rnd.randint(1, L - 1)) + rnd.choice([-1, 0, 0, 0, 1])
+        e = min(max(e, 0), L)
+        ins = rnd.choice("WKCM" if len(alphabet) > 6 else "ACGT") * rnd.randint(1, 8)
+        out.append(sub(anc[:e], 0.08) + ins + sub(anc[e:], 0.08))
+    rnd.shuffle(out)
+    return out
+
+
 @st.composite
 def cases(draw, tier):
     k, alpha = draw(gen.alphabets())
-    shape = draw(st.sampled_from(["clade", "chain", "any", "n100"]))
+    shape = draw(st.sampled_from(["clade", "chain", "any", "n100", "frag", "frag"]))
     big = tier == "thorough"
     if shape == "clade":
         seqs = gen.expand_family(draw(st.integers(0, 2 ** 32 - 1)), alpha, draw(st.integers(3, 40)), draw(st.integers(5, 150)),
@@ -39,6 +65,10 @@ def cases(draw, tier):
     elif shape == "chain":
         seqs = chain_family(draw(st.integers(0, 2 ** 32 - 1)), alpha, draw(st.integers(3, 40)), draw(st.integers(5, 150)),
                             draw(st.sampled_from([0.03, 0.1])), draw(st.sampled_from([0.03, 0.08])))
+    elif shape == "frag":
+        L = draw(st.sampled_from([40, 80, 150, 300, 300, 700, 2100, 2300] if not big else [40, 80, 150, 300, 700, 1100, 2100, 2300, 3000, 4200]))
+        seqs = frag_family(draw(st.integers(0, 2 ** 32 - 1)), alpha[:4] if k == "dna" else alpha[:20], L, draw(st.integers(1, 3)),
+                           draw(st.integers(1, 3)), draw(st.integers(1, 3)))
     elif shape == "any":
         seqs = draw(gen.seqsets(kind=k, min_n=3, max_n=40, max_len=200))["seqs"]
     else:
